@@ -393,8 +393,45 @@ where
     });
 }
 
+/// a Gaussian whose log-density carries a constant of +-1e5..1e7 on the f64 backend: energy differences of order one are
+/// 1e-6 of the values compared, so anything that narrows a joint log-density to 24 bits shows
+fn offset_transitions(out: &mut Out, rng: &mut Sm) {
+    type T = f64;
+    type B = Autodiff<NdArray<f64>>;
+    let id = out.fresh_id("off");
+    let dim0 = rng.range(1, 3) as usize;
+    let (t, dim) = random_target(rng, 3, dim0);
+    let AnyTarget::GaussD { mean, prec } = t else { return };
+    let target = AnyTarget::GaussOff { mean, prec, off: rng.log_uniform(1e5, 1e7) * if rng.coin(0.5) { 1.0 } else { -1.0 } };
+    let start: Vec<f64> = (0..dim).map(|_| rng.normal() * 0.8).collect();
+    let seed = rng.next();
+    if !out.selected(&id) {
+        return;
+    }
+    guard_case(out, &id.clone(), "C03:panic", 64, |out| {
+        let mut c = NUTSChain::<T, B, AnyTarget>::new(target.clone(), start.clone(), 0.8).set_seed(seed);
+        c.verif_init_chain(8, 3);
+        for k in 0..8 {
+            let Some((c2, ev)) = step_wd::<T, B>(c, 60) else {
+                out.fail(&format!("{id}.{k}"), "C03:transition-hang", "a NUTS transition did not finish within 60 s", 64, format!("f64 {} seed {seed}", target.spec::<T>()));
+                return;
+            };
+            c = c2;
+            if let Some(tr) = parse_step(&ev) {
+                if tr.depth <= 9 {
+                    emit_step::<T>(out, &format!("{id}.{k}"), "C03", &target, &tr, 1u64 << tr.depth);
+                    out.count("transitions_with_large_constant_in_logp");
+                }
+            }
+        }
+    });
+}
+
 pub fn run_c03(out: &mut Out) {
     let mut rng = out.rng("c03");
+    for _ in 0..out.n(3, 40) {
+        offset_transitions(out, &mut rng);
+    }
     for i in 0..out.n(2, 30) {
         if i % 2 == 0 {
             deep_transitions::<f64, Autodiff<NdArray<f64>>>(out, &mut rng);
